@@ -66,6 +66,12 @@ Theorem C06_source_tie_leaves : forall M z a,
 Proof. exact pe_tie_leaves. Qed.
 Print Assumptions C06_source_tie_leaves.
 
+(* the untranslated parts (constructors: max = 1 << bits; __call__, the getattr dispatch _visit, _visit_expr; gcd) still have
+   the source text whose digest is recorded in the translator *)
+Theorem C06_source_tie_untranslated_pinned : src_pin_base = true /\ src_pin_pe = true.
+Proof. exact pe_pins. Qed.
+Print Assumptions C06_source_tie_untranslated_pinned.
+
 Definition polish : expr :=
   If (Cmp CEq Var (Num 1)) (Num 0)
      (If (And (And (Cmp CGe (Bin Mod Var (Num 10)) (Num 2)) (Cmp CLe (Bin Mod Var (Num 10)) (Num 4)))
